@@ -17,7 +17,7 @@ ASSUMPTIONS = ["observation probabilities are 0 or above 1e-6 (obs_clean)", "val
 from pomdpgen import gen_pomdp, fmt_pomdp, gen_beliefs, L, Qs
 
 def gen(rng, tier):
-    n = {"quick": 70, "thorough": 350, "search": 150}[tier]
+    n = {"quick": 110, "thorough": 500, "search": 200}[tier]
     out = []
     for k in range(n):
         S = rng.choice([2, 2, 3, 3]); A = rng.choice([1, 2, 2, 3]); O = rng.choice([1, 2, 2, 3, 4])
@@ -25,6 +25,14 @@ def gen(rng, tier):
         bud = {1: 4, 2: 3, 3: 3, 4: 2}[O]
         if A == 3: bud = min(bud, 2 if O >= 3 else 3)
         h = rng.randint(1, bud)
+        if rng.random() < 0.35:     # the point-based backup itself, on an arbitrary previous list
+            from fractions import Fraction as F
+            nw = rng.randint(1, 5)
+            wv = [[F(rng.randint(-16, 16), rng.choice([1, 2, 4])) for _ in range(S)] for _ in range(nw)]
+            if nw >= 2 and rng.random() < 0.3: wv[1] = list(wv[0])     # duplicate: exercises the tie-break
+            bs = gen_beliefs(rng, S, 4)
+            out.append("csbb %s %d %s %d %s" % (fmt_pomdp(m), nw, " ".join(Qs(v) for v in wv), len(bs), " ".join(Qs(b) for b in bs)))
+            continue
         alg = rng.choice(["ip", "ip", "wit", "ls", "pbvi", "pbvi", "perseus", "perseus", "qmdp"])
         minr = min(min(row) for row in m["R"])
         bs = gen_beliefs(rng, S, 4)
